@@ -311,7 +311,11 @@ func decodeEvent(op string, entry string, b, h int, in, orig []byte, pan bool, m
 	return ev
 }
 
-func (s *State) Unmarshal(entry string, b, h int) V {
+// DgramHandle, when non-zero, names the handle that holds the result of
+// rtcp.Unmarshal on the same buffer (used for the CompoundPacket cross-check).
+func (s *State) Unmarshal(entry string, b, h int) V { return s.UnmarshalRef(entry, b, h, 0) }
+
+func (s *State) UnmarshalRef(entry string, b, h, dh int) V {
 	orig := s.Buf[b]
 	in := append([]byte(nil), orig...)
 	p := NewOf(entry)
@@ -326,7 +330,9 @@ func (s *State) Unmarshal(entry string, b, h int) V {
 	} else {
 		delete(s.Pk, h)
 	}
-	return s.emit(decodeEvent("unmarshal", entry, b, h, in, orig, pan, msg, err, alloc, out))
+	ev := decodeEvent("unmarshal", entry, b, h, in, orig, pan, msg, err, alloc, out)
+	ev["dh"] = dh
+	return s.emit(ev)
 }
 
 func (s *State) Datagram(b, h int) V {
